@@ -175,11 +175,11 @@ func mi(m mdl) *domain.ModelInfo {
 }
 
 // quiesce waits until the async unification goroutines are gone and the catalogue is stable.
-func quiesce(base int, snap func() string) {
+func quiesce(reg any, base int, snap func() string) {
 	deadline := time.Now().Add(3 * time.Second)
 	prev := ""
 	for time.Now().Before(deadline) {
-		if runtime.NumGoroutine() <= base {
+		if runtime.NumGoroutine() <= base && vlib.UnifyIdle(reg) {
 			cur := snap()
 			if cur == prev {
 				return
@@ -194,7 +194,7 @@ func caseReg(c *vlib.Cases, typ, fb string, rom bool, listings [][]mdl, hMask in
 	all := mkEndpoints()
 	disc := &fakeDisc{all: all, updated: pick(all, hMask)}
 	rc := &config.ModelRoutingStrategy{Type: typ, Options: config.ModelRoutingStrategyOptions{FallbackBehavior: fb, DiscoveryRefreshOnMiss: rom, DiscoveryTimeout: time.Second}}
-	base := runtime.NumGoroutine()
+	base := vlib.SettledGoroutines()
 	reg := registry.NewUnifiedMemoryModelRegistry(vlib.QuietLogger(), nil, rc, disc)
 	ctx := context.Background()
 	snap := func() string {
@@ -222,7 +222,7 @@ func caseReg(c *vlib.Cases, typ, fb string, rom bool, listings [][]mdl, hMask in
 		if err := reg.RegisterModelsWithEndpoint(ctx, all[i], ms); err != nil {
 			continue
 		}
-		quiesce(base, snap)
+		quiesce(reg, base, snap)
 	}
 	healthy := pick(all, hMask)
 	for _, sp := range spellings {
@@ -262,7 +262,7 @@ func caseRegHistory(c *vlib.Cases, typ, fb string, rom bool, rounds [][][]mdl, h
 	all := mkEndpoints()
 	disc := &fakeDisc{all: all, updated: pick(all, hMask)}
 	rc := &config.ModelRoutingStrategy{Type: typ, Options: config.ModelRoutingStrategyOptions{FallbackBehavior: fb, DiscoveryRefreshOnMiss: rom, DiscoveryTimeout: time.Second}}
-	base := runtime.NumGoroutine()
+	base := vlib.SettledGoroutines()
 	reg, err := registry.NewModelRegistry(registry.RegistryConfig{Type: "memory", EnableUnifier: !plainRegistry, RoutingStrategy: rc, Discovery: disc}, vlib.QuietLogger())
 	if err != nil {
 		c.Emit(map[string]any{"kind": "reg", "typ": typ, "fb": fb, "rom": rom, "impl": map[string]any{"factory_error": err.Error()}})
@@ -324,7 +324,7 @@ func caseRegHistory(c *vlib.Cases, typ, fb string, rom bool, rounds [][][]mdl, h
 				continue
 			}
 			effective[i] = append([]mdl{}, l...)
-			quiesce(base, snap)
+			quiesce(reg, base, snap)
 		}
 		eff := make([][]mdl, nEP)
 		for i := range effective {
